@@ -9,7 +9,7 @@ from common import Check, zlit, coq_list
 
 THEOREMS = ["C17_copies_are_the_cell_points", "C17_copies_distinct_mod_supercell", "C17_copies_NoDup",
             "C17_card_is_abs_det_entries_le_2_partial", "C17_atom_count", "C17_same_twist_iff_reciprocal_vector",
-            "C17_twists_partition", "C17_twist_keys", "C17_exclusive_box_refuted", "C17_nontrivial_instance"]
+            "C17_twists_partition", "C17_twist_keys", "C17_exclusive_box_refuted", "C17_nontrivial_instance", "C17_card_is_abs_det_for_diagonal_S"]
 SITE_COPIES = "pyqmc/pbc/supercell.py:get_supercell_copies"
 SITE_CELL = "pyqmc/pbc/supercell.py:get_supercell"
 SITE_TW = "pyqmc/pbc/twists.py:create_supercell_twists"
